@@ -364,6 +364,7 @@ func (c *SMTCtx) assemble(body string) string {
 			sb.WriteString("\n")
 		}
 	}
+	sb.WriteString("; --- path ---\n")
 	sb.WriteString(body)
 	return sb.String()
 }
